@@ -53,18 +53,23 @@ CHECKS = {
     },
     "C01": {
         "engine": "sched",
-        "text": ("Lean theorems over the scheduler model: walk_eq_need (the time checked by _find_dependencies equals the "
-                 "semantic requirement of the data path for every adapter chain), updateRec_sound (whatever "
-                 "_update_recursive updates is an unfinished time component whose inputs, also through pull-based "
-                 "components, can be served for its announced pull time — every graph, state, fuel), need_sufficient / "
-                 "need_necessary (the requirement is exactly what the range check of the answering element demands). "
-                 "Tied to schedule.py / adapters by a differential correspondence of the update sequence of real "
-                 "Composition.run against the model's run loop, plus an implementation-only oracle (no failing pulls). "
-                 "Partial: the run-level composition 'every pull of every reachable state succeeds' additionally rests on "
-                 "the lower-bound/eviction theorems of C09/C11 and is carried by the oracle; two known findings "
-                 "(integration-zero-length-repeat, pull-fanout-eviction) are recorded."),
+        "text": ("Lean theorems: walk_eq_need (the time checked by _find_dependencies equals the semantic requirement of the "
+                 "data path for every adapter chain), updateRec_sound (whatever _update_recursive updates is an unfinished "
+                 "time component whose inputs, also through pull-based components, can be served for its announced pull "
+                 "time - every graph, state, fuel), need_sufficient / need_necessary (the requirement is exactly what the "
+                 "range check of the answering element demands), and at run level run_pulls_ok: on the network model "
+                 "(scheduler state + one bounded Output history with eviction per output) every pull performed inside an "
+                 "update of any run is answered ok - no time-range error, no no-data error, served from inside the published "
+                 "range - by composing updateRec_sound, need_direct and C09's eviction invariant (update_pulls_ok preserves "
+                 "the network invariant NInv). Scope of run_pulls_ok: time-stepped components, links through pass-through / "
+                 "fixed-delay adapters (requests that reach the source output); push-based adapters answer from their own "
+                 "buffer (C11). Tied to schedule.py / sdk/output.py / adapters by (i) the update-sequence correspondence "
+                 "of real Composition.run against the model's run loop and (ii) a network correspondence: the retained "
+                 "history length of every output after every update of real runs against netRunLoop; plus an "
+                 "implementation-only oracle (no failing pulls). Three known findings are recorded "
+                 "(integration-zero-length-repeat, pull-fanout-eviction, dpull-repeated-pull)."),
         "design_ref": "5/C01",
-        "technique": "Lean 4 proof (mutual induction over the dependency walk; induction over adapter chains) + model/implementation correspondence",
+        "technique": "Lean 4 proof (mutual induction over the dependency walk; induction over adapter chains; network invariant composed with the eviction refinement) + model/implementation correspondence",
     },
     "C02": {
         "engine": "sched",
